@@ -46,13 +46,13 @@ WEAK = {
 # (focus scope, depth); sim: simulated behaviours (full scope)
 FULL = "Catalogs = {1, 2, 3}  Limits = {0, 1, 2, 3, 4, 5}  Daemons = {0, 1}  Batches = {1, 2, 3, 4, 5, 6, 7}  Laters = {0, 1, 2, 3}"
 SCOPE = {
-    ("C04", "quick"): dict(mc="Catalogs = {1, 2}  Limits = {0, 2}  Daemons = {1}  Batches = {2, 5, 7}  Laters = {0, 2}", mc_steps=7,
+    ("C04", "quick"): dict(mc="Catalogs = {1, 2}  Limits = {0}  Daemons = {1}  Batches = {2, 7}  Laters = {0, 2}", mc_steps=7,
                            enum="Catalogs = {1}  Limits = {0}  Daemons = {1}  Batches = {2, 7}  Laters = {1}", enum_steps=4, enum_keep=300,
                            sim=500, sim_steps=14, explore=200),
     ("C04", "thorough"): dict(mc="Catalogs = {1, 2, 3}  Limits = {0, 2, 4}  Daemons = {0, 1}  Batches = {1, 2, 3, 5, 7}  Laters = {0, 1, 2}", mc_steps=8,
                               enum="Catalogs = {1, 2}  Limits = {0, 2}  Daemons = {1}  Batches = {2, 7}  Laters = {1}", enum_steps=5, enum_keep=4000,
                               sim=5000, sim_steps=16, explore=4000),
-    ("C03", "quick"): dict(mc="Catalogs = {1, 3}  Limits = {1, 2, 4, 5}  Daemons = {1}  Batches = {2, 4, 6}  Laters = {0, 2}", mc_steps=6,
+    ("C03", "quick"): dict(mc="Catalogs = {1, 3}  Limits = {2, 4, 5}  Daemons = {1}  Batches = {2, 6}  Laters = {0, 2}", mc_steps=6,
                            enum="Catalogs = {1}  Limits = {2, 3}  Daemons = {1}  Batches = {2}  Laters = {3}", enum_steps=4, enum_keep=150,
                            sim=300, sim_steps=12, explore=200, sim_scope="Catalogs = {1, 2, 3}  Limits = {1, 2, 3, 4, 5}  Daemons = {0, 1}  Batches = {1, 2, 3, 4, 5, 6, 7}  Laters = {0, 1, 2, 3}"),
     ("C03", "thorough"): dict(mc="Catalogs = {1, 2, 3}  Limits = {1, 2, 3, 4, 5}  Daemons = {1}  Batches = {1, 2, 4, 6}  Laters = {0, 2, 3}", mc_steps=7,
@@ -112,7 +112,7 @@ def closed_models(run, prop):
         write_cfg(run, "MultiPass_MC_run.cfg", sc["mc"], sc["mc_steps"], "SPECIFICATION Spec\nVIEW view\nINVARIANTS " + INVS)
         jobs.append(("mc", lambda: run.closed_model("MultiPass", "MultiPass_MC_run.cfg", workers=4 if dev else 8, heap="4g" if dev else "8g",
                                                     timeout=3000)))
-        write_cfg(run, "MultiPass_Cov_run.cfg", "Catalogs = {1}  Limits = {2}  Daemons = {1}  Batches = {2}  Laters = {1}", 7,
+        write_cfg(run, "MultiPass_Cov_run.cfg", "Catalogs = {1}  Limits = {2}  Daemons = {1}  Batches = {2}  Laters = {1}", 6,
                   "SPECIFICATION Spec\nVIEW view\nINVARIANTS " + INVS)
         jobs.append(("cov", lambda: run.tlc("MultiPass", "MultiPass_Cov_run.cfg", workers=2, coverage=True, timeout=1500, heap="3g")))
     for cfg in WEAK:
